@@ -189,6 +189,45 @@ func (c *Ctx) c18Order() {
 		if !okArg {
 			probs = append(probs, "policy.Sanitize at "+p.InstrPos(call)+" is not applied to the style filter's output for the input")
 		}
+		// the stage between the input and the policy must not be skippable: a wrapper around
+		// the tag filter returns, on every success path, something other than (a view of) its
+		// own input, after a successful run of the tag filter
+		if e, ok := arg.(*ssa.Extract); ok && okArg {
+			if fc, ok := e.Tuple.(*ssa.Call); ok {
+				if g := eng.StaticCallee(fc.Common()); g != nil && g != tagFilter && len(g.Blocks) > 0 {
+					var filterCall *ssa.Call
+					eng.EachInstr(g, func(in ssa.Instruction) {
+						if c2, ok := in.(*ssa.Call); ok {
+							if h := eng.StaticCallee(c2.Common()); h != nil && (h == tagFilter || reachesSync(h, tagFilter)) {
+								filterCall = c2
+							}
+						}
+					})
+					for _, gret := range successReturns(g) {
+						rv := eng.Unwrap(resolveCell(eng.ReturnResults(gret)[0]))
+						viaInput := false
+						for _, prm := range g.Params {
+							if rv == ssa.Value(prm) {
+								viaInput = true
+							}
+						}
+						if sl, isSl := rv.(*ssa.Slice); isSl {
+							for _, prm := range g.Params {
+								if sl.X == ssa.Value(prm) {
+									viaInput = true
+								}
+							}
+						}
+						switch {
+						case viaInput:
+							probs = append(probs, shortFn(g)+" can return its input unfiltered at "+p.InstrPos(gret)+": markup that skips the style filter reaches the policy, which accepts any style value")
+						case filterCall == nil || !eng.Dominates(filterCall, gret) || errResultOf(filterCall) != nil && !eng.KnownNil(errResultOf(filterCall), gret.Block()) && !eng.SucceededBefore(filterCall, errResultOf(filterCall), gret):
+							probs = append(probs, shortFn(g)+" can report success at "+p.InstrPos(gret)+" without a successful run of the tag filter")
+						}
+					}
+				}
+			}
+		}
 		// the policy receiver is the package variable
 		if u, ok := call.Call.Args[0].(*ssa.UnOp); !ok || u.Op != token.MUL {
 			probs = append(probs, "Sanitize is not called on the package policy")
